@@ -5,7 +5,7 @@
 #    passes the existing test suite, and that the demonstration fails with the patch and passes without;
 # 2. applies the patch to /repo, runs the property's quick check, undoes the patch straight away;
 # 3. stores everything under /verif/seeded/<id>/ (patch.diff, demonstration, meta.json).
-export GOFLAGS=-mod=mod
+unset GOPROXY GOSUMDB GOTOOLCHAIN; export GOFLAGS=-mod=mod
 id=$1; prop=$2; src=$3; demodir=$4; shift 4
 demoargs=("$@")
 [ ${#demoargs[@]} -eq 0 ] && demoargs=(-run . )
